@@ -25,6 +25,7 @@ RULE = (
     "dominated by edge values (exact edges, nextafter of edges, below zmin, above zmax), weighted or not, with patches/bins left empty. "
     "Oracle: explicit interval membership per bin; compared with tree sizes and weight sums after build_trees, the weight sums of an "
     "autocorrelation and HistData.from_catalog. Non-trivial: >=1 redshift exactly on an inner edge and >=1 on an outer edge; distinct = case digest."
+    ' Extensions: one case in eight has 127-300 redshift bins.'
 )
 ASSUMPTIONS = ["bin edges are taken from the library's configuration (C15 checks them)", "weighted sums compared to rtol 1e-12"]
 
